@@ -50,6 +50,8 @@ class MILSTD1553Message(object):
         """
         offset = 0
         # bytes = struct.unpack_from(">8B", mybuffer)
+        # Decode into a new time stamp object: the previous one may have been handed to other code
+        self.ipts = type(self.ipts)()
         self.ipts.unpack(mybuffer[:8])
         offset += 8
         (self.blockstatus, self.gaptimes, self.length) = struct.unpack_from("<HHH", mybuffer, offset)
